@@ -127,6 +127,10 @@ let handle line =
   | "c.archived" :: [f] -> do_cop (CArchived (optflag f))
   | "c.open" :: ws -> do_cop (COpen (parse_arch ws))
   | "c.drop" :: [] -> do_cop CDrop
+  | "c.setarchive" :: ws ->
+      (* the property setter  cache.archive = a  (CacheDict.c_set_archive), not an operation of cstep *)
+      let c' = c_set_archive !cst (parse_arch ws) in
+      cst := c'; print_string ("unit ; " ^ show_cs c' ^ "\n")
   | "c.archset" :: [k; v] -> do_cop (CArchSet (zi k, zi v))
   | "c.archdel" :: [k] -> do_cop (CArchDel (zi k))
   | w :: _ ->
